@@ -1276,6 +1276,27 @@ func csvBigTable(r *Rng) string {
 	return sb.String()
 }
 
+// csvTallTable: `rows` data rows of 1-3 short fields
+func csvTallTable(r *Rng, rows int) string {
+	cols := 1 + r.Intn(3)
+	fields := []string{"1", "0", "x", "2.5", "T", "1e3", "abc", "-7", "4"}
+	var sb strings.Builder
+	for i := 0; i <= rows; i++ {
+		for k := 0; k < cols; k++ {
+			if k > 0 {
+				sb.WriteString(",")
+			}
+			if i == 0 {
+				sb.WriteString("c" + strconv.Itoa(k))
+			} else {
+				sb.WriteString(fields[(i*7+k*3+r.Intn(2))%len(fields)])
+			}
+		}
+		sb.WriteString("\n")
+	}
+	return sb.String()
+}
+
 var csvRawAlpha = []byte("ab1,\"\n\r \t\xc2\xa0\x85\xe2\x80\x81\x9f\xe3\xe1\x9a\xa8\xaf\x8ate.-x0,\"\n")
 
 func csvRaw(r *Rng) string {
@@ -1523,6 +1544,11 @@ func suiteCsv(c *Ctx) {
 	n = c.N(120, 1200)
 	for i := 0; i < n; i++ {
 		csvLoadCase(c, csvBigTable(r), "big-table", csvLoadText)
+	}
+	// tall tables: hundreds to a few thousand rows of one to three short fields, row counts around the powers of two
+	// and not multiples of 8 (every row must be cast, the last ones included)
+	for _, rows := range []int{255, 511, 512, 515, 777, 1021, 1024, 1027, c.N(2050, 4099)} {
+		csvLoadCase(c, csvTallTable(r, rows), "tall-table", csvLoadText)
 	}
 	// 4. the same loader reached through files: DataSet.Load(meta file) -> loadCsvIntoTable.
 	// The model is the same `load`; degenerate meta files are judged on the Go side only.
